@@ -554,6 +554,27 @@ def run_c15(ctx):
         assumptions=['encoding is checked for UTC time.Time values', 'for raw (non-BCD) nibbles the digit-wise value hi*10+lo is the definition'])
 
 
+def run_c11(ctx):
+    build_harness(ctx)
+    quick = ctx.tier == 'quick'
+    model_check(ctx, 'TSRoundTrip', 'TSRoundTrip.cfg', workers=8)
+    sd = ctx.seed
+    scs = ranged('pids', 0, 8192, 1024 if quick else 512, sd, prefix='ts')
+    scs = [s for i, s in enumerate(scs)] if not quick else scs[::4] + ranged('pids', 0, 64, 64, sd + 1, prefix='ts')[:0]
+    for part, n in (('hdr', 1), ('afsubsets', 2 if quick else 12), ('aflen', 1), ('clock', 1), ('priv', 1)):
+        scs.append({'sid': 'ts-%s' % part, 'kind': 'ts', 'part': part, 'seed': sd, 'n': n})
+    for i in range(8 if quick else 64):
+        scs.append({'sid': 'ts-random-%d' % i, 'kind': 'ts', 'part': 'random', 'seed': sd * 977 + i, 'n': 250 if quick else 2000})
+    return pipeline(
+        ctx, 'Mon_C11', 'ts', scs,
+        rule='packet values: PIDs (every 4th 1024-block in quick / all 8192) with random other header fields; 16 counters x 4 scrambling values x 8 flag '
+             'triples x adaptation_field_control {01,10,11}; every subset of the 5 optional AF parts x 3 extension parts; every AF size 1..184; '
+             'PCR/OPCR/seamless-splice DTS at every single-bit value, 0 and all-ones, 9-bit extensions, 22-bit rate, 15-bit LTW offset, all 256 splice '
+             'countdowns; private data 0..181 bytes; seeded random packets. Each value: real WritePacket bytes = TSEncode!Encode(value) (TLC), real '
+             'NextPacket of those bytes = value, re-emission byte-identical',
+        assumptions=['parse direction uses the bytes the real writer produced once TLC has confirmed they are the reference encoding'])
+
+
 PROPS = {
     'C01': lambda ctx: run_mux_family(ctx, 'C01'),
     'C04': lambda ctx: run_mux_family(ctx, 'C04'),
@@ -569,4 +590,5 @@ PROPS = {
     'C03': run_c03,
     'C10': run_c10,
     'C15': run_c15,
+    'C11': run_c11,
 }
